@@ -33,6 +33,8 @@ type reconnectState struct {
 	nextDelay   time.Duration
 	lastAttempt time.Time
 	timer       *time.Timer
+	gen         uint64 // identifies the armed timer: a timer overtaken by a newer one does nothing
+	inFlight    bool   // an attempt is running; its completion re-arms the timer or clears the state
 }
 
 // Reconnector handles automatic reconnection with exponential backoff.
@@ -72,6 +74,13 @@ func (r *Reconnector) Schedule(addr string) {
 		r.states[addr] = state
 	}
 
+	// The reconnect callback itself may end up here (a failed dial schedules a
+	// reconnect): the running attempt re-arms the timer when it fails, a second
+	// timer for the same address would double the attempts from then on.
+	if state.inFlight {
+		return
+	}
+
 	// Cancel any existing timer
 	if state.timer != nil {
 		state.timer.Stop()
@@ -87,15 +96,27 @@ func (r *Reconnector) Schedule(addr string) {
 	delay := r.addJitter(state.nextDelay)
 
 	// Schedule reconnect
+	r.armLocked(addr, state, delay)
+}
+
+// armLocked starts the one timer of an address. Must be called with r.mu held.
+func (r *Reconnector) armLocked(addr string, state *reconnectState, delay time.Duration) {
+	state.gen++
+	gen := state.gen
 	state.timer = time.AfterFunc(delay, func() {
-		r.attemptReconnect(addr)
+		r.attemptReconnect(addr, gen)
 	})
 }
 
 // attemptReconnect attempts to reconnect to the given address.
-func (r *Reconnector) attemptReconnect(addr string) {
+func (r *Reconnector) attemptReconnect(addr string, gen uint64) {
 	r.mu.Lock()
 	state, exists := r.states[addr]
+	if exists && (state.gen != gen || state.inFlight) {
+		// A timer that fired while a newer Schedule was replacing it
+		r.mu.Unlock()
+		return
+	}
 	if !exists || r.closed || r.paused {
 		// A timer that fired just before Pause() stopped it ends up here: no attempt
 		// starts while paused. The state is kept for Resume() + Schedule().
@@ -105,6 +126,7 @@ func (r *Reconnector) attemptReconnect(addr string) {
 
 	state.attempts++
 	state.lastAttempt = time.Now()
+	state.inFlight = true
 
 	// Calculate next delay with exponential backoff
 	nextDelay := time.Duration(float64(state.nextDelay) * r.cfg.Multiplier)
@@ -120,7 +142,14 @@ func (r *Reconnector) attemptReconnect(addr string) {
 	r.mu.Lock()
 	defer r.mu.Unlock()
 
+	state.inFlight = false
+
 	if r.closed {
+		return
+	}
+
+	if r.states[addr] != state {
+		// Cancelled (and possibly scheduled afresh) while the attempt was running
 		return
 	}
 
@@ -134,9 +163,7 @@ func (r *Reconnector) attemptReconnect(addr string) {
 		// Reschedule if still within limits
 		if r.cfg.MaxAttempts == 0 || state.attempts < r.cfg.MaxAttempts {
 			delay := r.addJitter(state.nextDelay)
-			state.timer = time.AfterFunc(delay, func() {
-				r.attemptReconnect(addr)
-			})
+			r.armLocked(addr, state, delay)
 		} else {
 			// Max attempts reached, clean up
 			delete(r.states, addr)
